@@ -1,5 +1,7 @@
 #!/bin/bash
-# tools/cmake.sh <targets...> : build Coq targets (relative to coq/) under the shared lock, with a timeout.
+# tools/cmake.sh <targets...> : build Coq targets (relative to coq/) with a timeout.
+# Only the regeneration of _CoqProject/Makefile is serialised (shared lock); make itself runs unlocked.
 # e.g. tools/cmake.sh Proofs/TslProofs.vo Props/C10.vo
 HERE="$(cd "$(dirname "$0")/.." && pwd)"
-exec flock "$HERE/coq/.lock" bash -c "cd '$HERE/coq' && ./mkproject.sh && timeout ${COQ_TIMEOUT:-900} make -j${COQ_JOBS:-8} --no-print-directory $*"
+flock "$HERE/coq/.lock" bash -c "cd '$HERE/coq' && ./mkproject.sh"
+cd "$HERE/coq" && exec timeout ${COQ_TIMEOUT:-900} make -j${COQ_JOBS:-8} --no-print-directory "$@"
